@@ -363,7 +363,7 @@ def r22(ctx, prop):
 
 def r21(ctx, prop):
     want = {"C06": ("criticality",), "C20": ("entropy scaling",), "C13": ("virial",), "C14": ("parameter construction",),
-            "C17": ("second-derivative", "convolver", "functional", "FMT"), "C19": ("second-derivative", "segment -> component")}.get(prop)
+            "C17": ("second-derivative", "convolver", "functional", "FMT"), "C19": ("second-derivative",)}.get(prop)
     return r21_clones.run(ctx.F(), want)
 
 
